@@ -185,11 +185,11 @@ def parse (s : St) (line : String) : Except String (Option Op) :=
     match i.toNat?, idNat 'u' u with
     | some i, some u =>
       let (p, bits) := prioOf fl
-      pure (some (.regSrc m (i ≥ 1 && i ≤ 3) { kind := .path, owner := m, key := i, prio := p.getD .norm, oneshot := fl.contains 'o', userptr := u } bits))
+      pure (some (.regSrc m (i ≥ 1 && i ≤ 4) { kind := .path, owner := m, key := i, prio := p.getD .norm, oneshot := fl.contains 'o', userptr := u } bits))
     | _, _ => .error "bad-op"
   | ["dereg_path", h, i] => do
     let m ← h? h
-    match i.toNat? with | some i => pure (some (.deregSrc m (i ≥ 1 && i ≤ 3) .path i)) | none => .error "bad-op"
+    match i.toNat? with | some i => pure (some (.deregSrc m (i ≥ 1 && i ≤ 4) .path i)) | none => .error "bad-op"
   | ["reg_thr", h, a, b, fl, u] => do
     let m ← h? h
     match a.toNat?, b.toNat?, idNat 'u' u with
